@@ -403,7 +403,7 @@ class Executor(object):
                     out += self.block(st.body, p1, fctx)
                 else:
                     out += self.block(st.orelse, p1, fctx) if st.orelse else [(p1, "normal", None)]
-            return out
+            return self.merge_states(p, out)
         if isinstance(st, (ast.While, ast.For)):
             return self.loop(st, p, fctx)
         if isinstance(st, ast.Assert):
@@ -1210,6 +1210,68 @@ class Executor(object):
         q.assume(z3.Or(*[zand(*p1.pc[n0:]) for p1, _ in oks]) if len(oks) > 1 else True)
         return [(q, acc)]
 
+    def merge_states(self, p0, results):
+        """join the fall-through paths of an `if` whose branches differ only in scalar
+        values (locals, object fields, world components): keeps the number of paths
+        linear in the number of consecutive conditionals"""
+        normal = [(q, k, v) for q, k, v in results if k == "normal"]
+        others = [(q, k, v) for q, k, v in results if k != "normal"]
+        if len(normal) < 2:
+            return results
+        if _os.environ.get("PYVC_DEBUG_MERGE"):
+            print("merge attempt", len(normal))
+        n0 = len(p0.pc)
+        for q, _, _ in normal:
+            if len(q.pc) < n0 or any(not a.eq(b) for a, b in zip(q.pc[:n0], p0.pc)):
+                return results
+            if any(_has_quant(c) for c in q.pc[n0:]):
+                return results
+            if q.out != normal[0][0].out and len(q.out) != len(normal[0][0].out):
+                return results
+        base = normal[0][0]
+        conds = [zand(*q.pc[n0:]) for q, _, _ in normal]
+        try:
+            m = base.fork()
+            m.pc = list(p0.pc)
+            m.assume(z3.Or(*[to_z3(c) for c in conds]))
+
+            def join(vals):
+                acc = vals[-1]
+                for c, v in reversed(list(zip(conds[:-1], vals[:-1]))):
+                    acc = _ite_val(c, v, acc)
+                return acc
+
+            keys = set(base.env)
+            for q, _, _ in normal:
+                if set(q.env) != keys or set(q.heap) != set(base.heap) or set(q.w) != set(base.w):
+                    return results
+            for k in keys:
+                m.env[k] = join([q.env[k] for q, _, _ in normal])
+            for k in base.w:
+                m.w[k] = join([q.w[k] for q, _, _ in normal])
+            for oid, o in base.heap.items():
+                for q, _, _ in normal:
+                    o2 = q.heap[oid]
+                    if o2.cls != o.cls or set(o2.f) != set(o.f):
+                        return results
+                for fk in o.f:
+                    vals = [q.heap[oid].f[fk] for q, _, _ in normal]
+                    if isinstance(vals[0], list):
+                        if any(not isinstance(v, list) or len(v) != len(vals[0]) for v in vals):
+                            return results
+                        m.heap[oid].f[fk] = [join([v[i] for v in vals]) for i in range(len(vals[0]))]
+                    else:
+                        m.heap[oid].f[fk] = join(vals)
+            if len(base.out) and any(q.out is not base.out for q, _, _ in normal):
+                for i in range(len(base.out)):
+                    m.out[i] = join([q.out[i] for q, _, _ in normal])
+            m.mut = max(q.mut for q, _, _ in normal) + 1
+        except _NoMerge:
+            if _os.environ.get("PYVC_DEBUG_MERGE"):
+                print("no merge (value kinds)")
+            return results
+        return others + [(m, "normal", None)]
+
     # ------------------------------------------------------------------ loops
     def loop(self, st, p, fctx):
         return self.contracts.loop(self, st, p, fctx)
@@ -1284,6 +1346,58 @@ def _ite(c, a, b):
             raise Unsupported("merge of different sorts")
         vv = z3.simplify(z3.If(c, az, bz))
     return Opt(nn, vv)
+
+
+class _NoMerge(Exception):
+    pass
+
+
+def _same(a, b):
+    if a is b:
+        return True
+    if is_z3(a) and is_z3(b):
+        return a.eq(b)
+    if isinstance(a, Opt) and isinstance(b, Opt):
+        return _same(a.none, b.none) and _same(a.val, b.val)
+    if isinstance(a, (Ref,)) and isinstance(b, Ref):
+        return a == b
+    if isinstance(a, tuple) and isinstance(b, tuple) and len(a) == len(b):
+        return all(_same(x, y) for x, y in zip(a, b))
+    if type(a) is type(b) and isinstance(a, (int, bool, bytes, str, type(None))):
+        return a == b
+    if isinstance(a, dict) and isinstance(b, dict) and set(a) == set(b):
+        return all(_same(a[k], b[k]) for k in a)
+    return False
+
+
+def _ite_val(c, a, b):
+    try:
+        return _ite_val2(c, a, b)
+    except _NoMerge:
+        if _os.environ.get("PYVC_DEBUG_MERGE"):
+            print("   kinds", type(a).__name__, type(b).__name__, str(a)[:70], "|", str(b)[:70])
+        raise
+
+
+def _ite_val2(c, a, b):
+    if _same(a, b):
+        return a
+    if isinstance(a, (Ref, Raw, Func)) or isinstance(b, (Ref, Raw, Func)) or callable(a) or callable(b):
+        if _os.environ.get("PYVC_DEBUG_MERGE"):
+            print("   kinds", type(a).__name__, type(b).__name__, str(a)[:60], str(b)[:60])
+        raise _NoMerge()
+    if isinstance(a, tuple) or isinstance(b, tuple):
+        if isinstance(a, tuple) and isinstance(b, tuple) and len(a) == len(b):
+            return tuple(_ite_val(c, x, y) for x, y in zip(a, b))
+        raise _NoMerge()
+    if isinstance(a, (str, dict)) or isinstance(b, (str, dict)):
+        raise _NoMerge()
+    if isinstance(a, Opt) and isinstance(a.val, (Ref, Raw)) or isinstance(b, Opt) and isinstance(b.val, (Ref, Raw)):
+        raise _NoMerge()
+    try:
+        return _ite(c, a, b)
+    except Unsupported:
+        raise _NoMerge()
 
 
 def _exact_div(l, r):
